@@ -521,6 +521,9 @@ func (e *cenv) exec(m map[string]string) string {
 				}
 			}
 		}()
+		if m["via"] == "run" && !fb.present {
+			return e.classify(e.c.Run(caller, runFn), run, fb)
+		}
 		return e.classify(e.c.Execute(caller, runFn, fbFn), run, fb)
 	}()
 	if runCalls > 0 && run.cancel && after == "-" {
@@ -680,8 +683,13 @@ func (circuitSuite) Gen(r *rand.Rand, i int) Case {
 			if rc {
 				tag("cancel-during-run")
 			}
-			c.Ops = append(c.Ops, fmt.Sprintf("exec ctx=%s run=%s radv=%d rcancel=%s fb=%s fadv=%d fcancel=%s ans=%d%d%d%d",
-				ctx, run, radv, b01(rc), fb, r.Int63n(5), b01(r.Intn(10) == 0), r.Intn(2), r.Intn(2)*r.Intn(2)*r.Intn(2), r.Intn(2), r.Intn(2)))
+			via := ""
+			if fb == "none" && r.Intn(2) == 0 {
+				via = " via=run" // Run(ctx, f) must behave as Execute(ctx, f, nil): the model knows only the latter
+				tag("via-run")
+			}
+			c.Ops = append(c.Ops, fmt.Sprintf("exec ctx=%s run=%s radv=%d rcancel=%s fb=%s fadv=%d fcancel=%s ans=%d%d%d%d%s",
+				ctx, run, radv, b01(rc), fb, r.Int63n(5), b01(r.Intn(10) == 0), r.Intn(2), r.Intn(2)*r.Intn(2)*r.Intn(2), r.Intn(2), r.Intn(2), via))
 		case x < 76:
 			c.Ops = append(c.Ops, "open")
 			tag("manual-open")
